@@ -175,6 +175,22 @@ def validateUnrepaired_Validator (s : VSpec) : Bool := !s.isZero
 theorem unrepaired_Validator : ∃ s : VSpec, validateUnrepaired_Validator s = true ∧ panicsIR_Validator s = true :=
   ⟨⟨false, some ⟨0⟩⟩, by decide⟩
 
+theorem validatorValid_implies_validateIR (o : Oracle) (j : J) :
+    validatorValid o j = true → validateIR_Validator (VSpec.ofJ j) = true := by
+  unfold validatorValid signatureOK validateIR_Validator VSpec.ofJ
+  intro h
+  simp only [Bool.and_eq_true, Bool.or_eq_true, Bool.not_eq_true'] at h
+  cases hs : j.has "signature"
+  · simp
+  · have h3 := h.2
+    rw [hs] at h3
+    simp only [Bool.true_eq_false, false_or, Bool.and_eq_true, Bool.not_eq_true'] at h3
+    have hne : ((j.get "signature").oget "accessKeys") ≠ [] := by
+      intro e; rw [e] at h3; simp at h3
+    have hpos : 0 < ((j.get "signature").oget "accessKeys").length := List.length_pos_iff.mpr hne
+    simp
+    omega
+
 theorem validator_wiring_as_modelled : validatorWiring = true := by decide
 
 /-! ## MQTTProxy (fix 4f68600: `Spec.Validate` added) -/
